@@ -30,7 +30,7 @@ REQUIRED = {"placements_checked": 1500, "placements_wrapped": 150, "start_on_gri
 
 
 def plan(tier, seed):
-    n = 140 if tier == "quick" else 4000
+    n = 400 if tier == "quick" else 4000
     return [["sys", i] for i in range(n)] + [["edge", i] for i in range(n // 3)] + [["ring", i] for i in range(n // 2)]
 
 
